@@ -135,10 +135,21 @@ func (ds *dataStore) reenterListBlock(ws *wakeSignal, keyNames []string) {
 	ds.waitingClients.reenterWait(ws, keyNames)
 }
 
-func (ds *dataStore) leaveListBlock(ws *wakeSignal) {
+func (ds *dataStore) leaveListBlock(ws *wakeSignal, keyNames []string) {
 	ds.mu.Lock()
 	defer ds.mu.Unlock()
 	ds.waitingClients.disposeWakeSignal(ws)
+
+	// a wake-up that this client received may have been for an element it did not take: it was
+	// served from another of its keys, timed out or was unblocked at the same moment. The other
+	// clients waiting for a list that is not empty get their wake-up now.
+	for _, keyName := range keyNames {
+		if sk, exists := ds.getStoreKey(keyName); exists {
+			if list := sk.getList(); list != nil && list.count > 0 {
+				ds.waitingClients.unblock(keyName, list.count)
+			}
+		}
+	}
 }
 
 func (ds *dataStore) unblockListUnlocked(keyName string, elements int, self *wakeSignal) {
